@@ -47,7 +47,16 @@ def one(r, cn, camb=False, quick=True):
             # clone(**invalid) may be rejected like update(): then a fresh object with those values is rejected too
             script.append(f"c = {how}({', '.join(changes)}) -> {type(e).__name__}")
             if how != "clone+changes":
-                viol.append({"key": f"{cn}/{how}/raises", "what": f"{how} of a {cn} raised {type(e).__name__}: {str(e)[:80]}"})
+                # clone() re-validates: if the prior history left the original in a rejected state (an invalid value stays stored after
+                # a failed update), a fresh object with the same parameter values is rejected in the same way and clone() may be too
+                same = False
+                if how == "clone":
+                    try:
+                        type(o)(**copy.deepcopy(dict(o.parameter_values)))      # constructed *and* validated, like clone()
+                    except Exception as e2:
+                        same = type(e2) is type(e)
+                if not same:
+                    viol.append({"key": f"{cn}/{how}/raises", "what": f"{how} of a {cn} raised {type(e).__name__}: {str(e)[:80]}"})
             return viol, script, how
         script.append(f"c = o.{how}(" + ", ".join(f"{k}={realfuzz.show(v)}" for k, v in changes.items()) + ")")
         # faithful: parameters and outputs of the copy == fresh object with (changed) parameters
